@@ -262,3 +262,102 @@ Example C20_example_snapshot :
   | None => None
   end = Some (true, true, true, true, 9%nat, 9%nat).
 Proof. vm_compute. reflexivity. Qed.
+
+(** *** Orphan bookkeeping and pruning at node level (V2Orphans.v: v2/tree.go recursiveSet /
+    recursiveRemove / mutateNode / addOrphan with the branch sequence counter, sqlite_batch.go
+    saveBranches / execBranchOrphan, sqlite_writer.go treeLoop: delete the branches named by orphan
+    rows with [at <= n], the root rows below the previous checkpoint).  The keys recorded as
+    orphans are EXACTLY the persisted branches that left the tree (a Remove of an absent key records
+    nothing); an orphan row means exactly "node of the checkpoint trees from its creation to the
+    checkpoint before [at], of none from [at] on"; after any history of versions and deletions every
+    retained checkpoint loads back node for node, and nothing unreachable is left.  The seeded
+    defects (orphans recorded before knowing whether the key exists; orphan rows tagged with the
+    previous checkpoint) are refuted, and so is the deletion whose bound lies beyond the latest
+    version while later checkpoints are written before the pruner runs (the writer selects by
+    [at <= n], not by the checkpoint-aligned bound the leaf pruner uses): the versions between
+    the bound computed at the call and the newest checkpoint keep their root rows and lose
+    branches - outside the property (they are below "the last checkpoint not after n" once the
+    deletion has run), accepted as optional by the harness oracle, delimited here. *)
+From IAVL Require Import V2Orphans V2OrphansFacts V2OrphansFacts2.
+
+Theorem C20_orphans_exact_remove :
+  forall (wv ckpt bs : Z) (t : node) (k : bytes) (res : rm_res) (os : list nkey2) (bs' : Z),
+    v2_remove_o wv ckpt bs t k = Some (res, os, bs') ->
+    NoDup (ikeys t) ->
+    Forall (below wv bs) (ikeys t) ->
+    Permutation.Permutation (pkeys ckpt t) (os ++ opkeys ckpt (rm_self res)) /\
+    NoDup (okeys (rm_self res)) /\
+    Forall (below wv bs') (okeys (rm_self res)) /\
+    NoDup os /\
+    (forall x : nkey2, In x os <-> In x (pkeys ckpt t) /\ ~ In x (okeys (rm_self res))) /\
+    (forall x : nkey2, In x (okeys (rm_self res)) -> In x (ikeys t) \/ fst x = wv /\ bs < snd x).
+Proof. exact orphans_exact_remove. Qed.
+Print Assumptions C20_orphans_exact_remove.
+
+Theorem C20_remove_absent_no_orphans :
+  forall (wv ckpt : Z) (t : node) (k : bytes) (bs : Z) (res : rm_res) (os : list nkey2) (bs' : Z),
+    v2_remove_o wv ckpt bs t k = Some (res, os, bs') ->
+    rm_val res = None ->
+    os = [] /\ bs' = bs /\ rm_self res = Some t.
+Proof. exact remove_absent_no_orphans. Qed.
+Print Assumptions C20_remove_absent_no_orphans.
+
+Theorem C20_prune_keeps_checkpoints_node_level :
+  forall H : bytes -> bytes,
+    (forall x : bytes, H x <> []) ->
+    forall (interval : Z) (hist : list hstep) (s : ostate) (tr : list (Z * option node))
+           (n c : Z) (st' : ostore) (v : Z) (T : option node),
+      os_run H false false interval ostate_empty hist = Some s ->
+      os_trace H false false interval ostate_empty hist = Some tr ->
+      prune_tree (os_store s) n = Some st' ->
+      find_previous (ckpts (os_store s)) n = FPVal c ->
+      In (v, T) tr ->
+      run_floor H interval ostate_empty hist (-1) <= v ->
+      c <= v -> load_checkpoint st' v = Some T.
+Proof. exact prune_keeps_checkpoints. Qed.
+Print Assumptions C20_prune_keeps_checkpoints_node_level.
+
+Theorem C20_prune_exact_node_level :
+  forall H : bytes -> bytes,
+    (forall x : bytes, H x <> []) ->
+    forall (interval : Z) (hist : list hstep) (s : ostate) (tr : list (Z * option node))
+           (n c : Z) (st' : ostore) (key : nkey2) (row : node_row),
+      os_run H false false interval ostate_empty hist = Some s ->
+      os_trace H false false interval ostate_empty hist = Some tr ->
+      prune_tree (os_store s) n = Some st' ->
+      find_previous (ckpts (os_store s)) n = FPVal c ->
+      In (key, row) (branches st') ->
+      exists (v : Z) (T : option node),
+        In (v, T) tr /\
+        Z.max (run_floor H interval ostate_empty hist (-1)) c <= v /\
+        In key (okeys T).
+Proof. exact prune_exact. Qed.
+Print Assumptions C20_prune_exact_node_level.
+
+Theorem C20_prune_with_a_stale_checkpoint_list :
+  forall H : bytes -> bytes,
+    (forall x : bytes, H x <> []) ->
+    forall (interval : Z) (hist : list hstep) (s : ostate) (tr : list (Z * option node))
+           (cks : list Z) (n c : Z) (st' : ostore) (v : Z) (T : option node),
+      os_run H false false interval ostate_empty hist = Some s ->
+      os_trace H false false interval ostate_empty hist = Some tr ->
+      prune_tree_with cks (os_store s) n = Some st' ->
+      find_previous cks n = FPVal c ->
+      (forall a : Z, In a (ckpts (os_store s)) -> a <= n -> a <= c) ->
+      In (v, T) tr ->
+      run_floor H interval ostate_empty hist (-1) <= v ->
+      c <= v -> load_checkpoint st' v = Some T.
+Proof. exact prune_keeps_checkpoints_race. Qed.
+Print Assumptions C20_prune_with_a_stale_checkpoint_list.
+
+Theorem C20_remove_early_refuted :
+  x_outcome true false x_hist_early 3 = Some ([1; 3], FPVal 3, true, false, false) /\
+  x_outcome false false x_hist_early 3 = Some ([1; 3], FPVal 3, true, true, true).
+Proof. exact remove_early_history_refuted. Qed.
+Print Assumptions C20_remove_early_refuted.
+
+Theorem C20_orphans_tagged_with_previous_checkpoint_refuted :
+  x_outcome false true x_hist_prev 4 = Some ([1; 3; 5], FPVal 3, true, false, false) /\
+  x_outcome false false x_hist_prev 4 = Some ([1; 3; 5], FPVal 3, true, true, true).
+Proof. exact checkpoint_write_prev_refuted. Qed.
+Print Assumptions C20_orphans_tagged_with_previous_checkpoint_refuted.
